@@ -364,6 +364,47 @@ func jobC03(c *rt.Ctx) {
 			}
 		}
 	}
+	// own signatures next to ONE malformed / invalid member elsewhere in the batch (any chunk): still accepted
+	c.Require("mixed-batch")
+	for _, n := range []int{5, 70, 133} {
+		var poss []int
+		for _, p := range []int{0, 1, 3, 5, 62, 63, 64, 65, 66, 69, 127, 128, 129, 132} {
+			if p < n {
+				poss = append(poss, p)
+			}
+		}
+		for _, bp := range poss {
+			for ki, kind := range []string{"sig63", "sig-nil", "key-nil", "key31", "R-bitflip", "S+L", "wrong-msg", "small-order-R", "undecodable-key"} {
+				if !c.Take() {
+					continue
+				}
+				vs := vAll[(bp+ki)%3]
+				zip := (bp+ki)%2 == 1
+				entries := make([]triple, n)
+				for i := range entries {
+					entries[i] = honestTriple(6000+i%40, msgOf(i, vs), vs)
+				}
+				entries[bp] = mkEntry(kind, bp, vs)
+				_, valid, err, pv := implBatch(entries, vs, zip, rt.NewRng(c.Seed, "c03mix"))
+				c.Step(1)
+				c.Class("mixed-batch")
+				c.Distinct(fmt.Sprintf("mix %d %d %s", n, bp, kind), true)
+				bad := pv != nil || err != nil || len(valid) != n
+				where := -1
+				if !bad {
+					for i, v := range valid {
+						if i != bp && !v {
+							bad, where = true, i
+						}
+					}
+				}
+				if bad {
+					c.Violation(fmt.Sprintf("C03 mixed-batch kind=%s", kind), fmt.Sprintf("batch of %d own signatures with one %s member at %d (%s, zip215=%v): own signature at %d rejected (err=%v panic=%v)", n, kind, bp, vs, zip, where, err, pv),
+						map[string]interface{}{"n": n, "bad_pos": bp, "kind": kind, "rejected_pos": where, "variant": vs.String(), "zip215": zip})
+				}
+			}
+		}
+	}
 	// one signature alone at every position of a size-5 and a size-65 batch of other signatures
 	for _, n := range []int{5, 65} {
 		for pos := 0; pos < n; pos++ {
